@@ -254,6 +254,33 @@ func upperFirst(s string) string {
 	return strings.ToUpper(s[:1]) + s[1:]
 }
 
+// jointize puts one or two voting peers (possibly the leader) into the joint-consensus roles
+// IncomingVoter / DemotingVoter: a region in the middle of a membership change.
+func jointize(rng *rand.Rand, c *Case) {
+	var vs []int
+	for i, p := range c.Peers {
+		if !p.Learner {
+			vs = append(vs, i)
+		}
+	}
+	if len(vs) == 0 {
+		return
+	}
+	rng.Shuffle(len(vs), func(a, b int) { vs[a], vs[b] = vs[b], vs[a] })
+	n := 1 + rng.Intn(2)
+	if rng.Intn(3) == 0 { // make sure the leader is often among them
+		for i, j := range vs {
+			if c.Peers[j].ID == c.Leader {
+				vs[0], vs[i] = vs[i], vs[0]
+			}
+		}
+	}
+	for i := 0; i < n && i < len(vs); i++ {
+		c.Peers[vs[i]].Role = []string{"incoming", "demoting"}[rng.Intn(2)]
+	}
+	c.Origin += "+joint"
+}
+
 // caseVariant returns the same word in another letter case.
 func caseVariant(rng *rand.Rand, s string) string {
 	switch rng.Intn(3) {
@@ -465,6 +492,9 @@ func genCase(rng *rand.Rand) *Case {
 		}
 	}
 	if rng.Intn(4) == 0 {
+		jointize(rng, c)
+	}
+	if rng.Intn(4) == 0 {
 		variantizeStores(rng, c.Stores)
 		variantizeRules(rng, c.Rules)
 		c.Origin += "+variants"
@@ -485,7 +515,7 @@ func genCase(rng *rand.Rand) *Case {
 // separators, empty or duplicated values, label values with separators, a location label containing a
 // separator, count 0 and huge counts, two peers on one store, a region without leader. What it does
 // not decide is only checked for panics and for the partition clause, or skipped: negative counts,
-// roles spelled in another case, joint-consensus peer roles, a peer whose store is unknown.
+// roles spelled in another case, a peer whose store is unknown. Joint-consensus peer roles are judged (voting members).
 func oddize(rng *rand.Rand, c *Case) {
 	for n := 1 + rng.Intn(2); n > 0; n-- {
 		r := &c.Rules[rng.Intn(len(c.Rules))]
@@ -528,7 +558,7 @@ func oddize(rng *rand.Rand, c *Case) {
 			r.Role = pick(rng, []string{"Voter", "LEADER", "Learner", "follower ", ""})
 		case 6:
 			p := &c.Peers[rng.Intn(len(c.Peers))]
-			p.Role = pick(rng, []string{"incoming", "demoting"})
+			p.Role, p.Learner = pick(rng, []string{"incoming", "demoting"}), false
 		case 7:
 			if len(c.Peers) > 1 {
 				i, j := rng.Intn(len(c.Peers)), rng.Intn(len(c.Peers))
@@ -562,8 +592,10 @@ func oneFieldGrid(fn func(idx int, c *Case)) {
 		{{ID: 1, Store: 1}, {ID: 2, Store: 2}, {ID: 3, Store: 3}, {ID: 4, Store: 4}},
 		{{ID: 4, Store: 1}, {ID: 3, Store: 2, Learner: true}, {ID: 2, Store: 3}, {ID: 1, Store: 5, Learner: true}},
 		{{ID: 7, Store: 3}, {ID: 8, Store: 4}, {ID: 9, Store: 5, Learner: true}},
+		{{ID: 1, Store: 1, Role: "demoting"}, {ID: 2, Store: 2}, {ID: 3, Store: 3, Role: "incoming"}, {ID: 4, Store: 4}},
+		{{ID: 1, Store: 1}, {ID: 2, Store: 2, Role: "demoting"}, {ID: 3, Store: 4, Role: "incoming"}, {ID: 5, Store: 5, Learner: true}},
 	}
-	leaders := []uint64{1, 4, 8}
+	leaders := []uint64{1, 4, 8, 1, 1}
 	zc := func(op string, vs ...string) []ConsSpec { return []ConsSpec{{Key: "zone", Op: op, Values: vs}} }
 	bases := []RuleSpec{
 		{Role: "voter", Count: 2, Cons: zc("in", "z1", "z2"), Loc: []string{"zone", "host"}},
